@@ -134,11 +134,80 @@ theorem deterministic (pref : Option Str) (labels : Option (List (Str × Str))) 
   have : g.ty = g'.ty := by rw [← hft, ← hft', ht]
   cases g; cases g'; simp_all
 
+/-- the registry prefix is applied injectively: two names with the same prefixed form are equal -/
+theorem applyPrefix_inj (pref : Option Str) {a b : Str} (h : applyPrefix pref a = applyPrefix pref b) : a = b := by
+  cases pref with
+  | none => simpa [applyPrefix] using h
+  | some p =>
+    simp only [applyPrefix] at h
+    exact List.append_cancel_left h
+
+/-- **family_help_and_type** — every family returned by `gather()` carries the declared help and
+    type of a collector that actually reported under that name: there is a collected family `c` with
+    at least one sample whose (prefixed) name is the family's name and whose help and type are the
+    family's help and type. Nothing is invented and nothing comes from an empty family. -/
+theorem family_help_and_type (pref : Option Str) (labels : Option (List (Str × Str))) (collected : List Family)
+    (f : Family) (hf : f ∈ gatherFams pref labels collected) :
+    ∃ c ∈ collected, c.samples ≠ [] ∧ f.name = applyPrefix pref c.name ∧ f.help = c.help ∧ f.ty = c.ty := by
+  obtain ⟨g, hg, hn, hh, ht, _⟩ := gather_family_samples pref labels collected f hf
+  obtain ⟨c, hc, hne, hcn, hch, hct⟩ := merged_attrs collected g hg
+  exact ⟨c, hc, hne, by rw [hn, hcn], by rw [hh, hch], by rw [ht, hct]⟩
+
+/-- **family_help_type_unique** — if the collected families with samples agree on help and type
+    under each name (`SameAttrs`; for help this is what registration enforces: the help string is part
+    of the dimension hash, C06 / C14), then the help and type of a gathered family are THE help and
+    type of its name: they equal those of *every* collected family with samples of that name, and this
+    for every permutation `collected'` of what the collectors return (every registration order, every
+    hash seed). Without the agreement hypothesis the first collector in iteration order would win. -/
+theorem family_help_type_unique (pref : Option Str) (labels : Option (List (Str × Str)))
+    (collected collected' : List Family) (hp : collected.Perm collected') (ha : SameAttrs collected)
+    (f : Family) (hf : f ∈ gatherFams pref labels collected') :
+    ∀ c ∈ collected, c.samples ≠ [] → applyPrefix pref c.name = f.name → f.help = c.help ∧ f.ty = c.ty := by
+  intro c hc hne hn
+  obtain ⟨c0, hc0, hne0, hn0, hh0, ht0⟩ := family_help_and_type pref labels collected' f hf
+  have hc0' : c0 ∈ collected := hp.mem_iff.2 hc0
+  have hnm : c0.name = c.name := applyPrefix_inj pref (by rw [← hn0, hn])
+  obtain ⟨hh, ht⟩ := ha c0 hc0' c hc hne0 hne hnm
+  exact ⟨by rw [hh0, hh], by rw [ht0, ht]⟩
+
+/-- the same, with the declared help `h` and type `t` of a name `n` given explicitly: if every
+    collected family with samples named `n` declares `(h, t)`, the gathered family named
+    `applyPrefix pref n` carries `(h, t)` — in every permutation of the collected families -/
+theorem family_help_type_of_name (pref : Option Str) (labels : Option (List (Str × Str)))
+    (collected collected' : List Family) (hp : collected.Perm collected') (n : Str) (h : Str) (t : MType)
+    (hdecl : ∀ c ∈ collected, c.samples ≠ [] → c.name = n → c.help = h ∧ c.ty = t)
+    (f : Family) (hf : f ∈ gatherFams pref labels collected') (hn : f.name = applyPrefix pref n) :
+    f.help = h ∧ f.ty = t := by
+  obtain ⟨c0, hc0, hne0, hn0, hh0, ht0⟩ := family_help_and_type pref labels collected' f hf
+  have hnm : c0.name = n := applyPrefix_inj pref (by rw [← hn0, hn])
+  obtain ⟨hh, ht⟩ := hdecl c0 (hp.mem_iff.2 hc0) hne0 hnm
+  exact ⟨by rw [hh0, hh], by rw [ht0, ht]⟩
+
+/-- and such a family exists: a name under which some collector reported a sample appears (once,
+    `families_sorted_strict`) in the output, for every permutation -/
+theorem family_present (pref : Option Str) (labels : Option (List (Str × Str)))
+    (collected collected' : List Family) (hp : collected.Perm collected')
+    (c : Family) (hc : c ∈ collected) (hne : c.samples ≠ []) :
+    ∃ f ∈ gatherFams pref labels collected', f.name = applyPrefix pref c.name := by
+  have hm : c.name ∈ (merged collected').map (·.name) :=
+    (merged_names_iff collected' c.name).2 ⟨c, hp.mem_iff.1 hc, hne, rfl⟩
+  obtain ⟨g, hg, hgn⟩ := List.mem_map.1 hm
+  refine ⟨_, List.mem_map.2 ⟨g, hg, rfl⟩, ?_⟩
+  show applyPrefix pref g.name = applyPrefix pref c.name
+  rw [hgn]
+
 /-- non-vacuity: two collectors under one name, one under another, given in two orders -/
 def fA : Family := ⟨strOfString "m", strOfString "h", .counter, [⟨[⟨strOfString "k", strOfString "2"⟩], .counter 1, 0⟩]⟩
 def fB : Family := ⟨strOfString "m", strOfString "h", .counter, [⟨[⟨strOfString "k", strOfString "1"⟩], .counter 2, 0⟩]⟩
 def fC : Family := ⟨strOfString "a", strOfString "h", .gauge, [⟨[], .gauge 3, 0⟩]⟩
 example : gatherFams none none [fA, fB, fC] = gatherFams none none [fC, fB, fA] := by decide +kernel
 example : ((gatherFams none none [fA, fB, fC]).map (·.name)) = [strOfString "a", strOfString "m"] := by decide +kernel
+example : (gatherFams none none [fA, fB, fC]).map (fun f => (f.help, f.ty)) =
+    [(strOfString "h", .gauge), (strOfString "h", .counter)] := by decide +kernel
+/-- the agreement hypothesis of `family_help_type_unique` is needed: with two helps declared under one
+    name, the collector met first wins, so the help depends on the iteration order -/
+def fB' : Family := { fB with help := strOfString "other" }
+example : (gatherFams none none [fA, fB']).map (·.help) = [strOfString "h"] ∧
+    (gatherFams none none [fB', fA]).map (·.help) = [strOfString "other"] := by decide +kernel
 
 end Prom.C07
